@@ -166,6 +166,25 @@ def constDefaultsD : List (KeyKind × Spec × Spec) → Bool
      | _ => true) && constDefaults k && constDefaults v && constDefaultsD r
 end
 
+/-! ### Regex, declaratively (the catalogue: sequences of character classes, each once or `+`) -/
+
+/-- the strings a catalogue pattern denotes: per item one character of its class — one or more
+    when the item carries `+` — concatenated -/
+inductive ReLang : List ReItem → List Char → Prop
+  | nil : ReLang [] []
+  | one (it : ReItem) (its : List ReItem) (c : Char) (rest : List Char) :
+      it.plus = false → it.cls.matches c = true → ReLang its rest → ReLang (it :: its) (c :: rest)
+  | plus (it : ReItem) (its : List ReItem) (c : Char) (cs rest : List Char) :
+      it.plus = true → it.cls.matches c = true → cs.all it.cls.matches = true → ReLang its rest →
+      ReLang (it :: its) (c :: cs ++ rest)
+
+/-- what the three `re` functions decide, in terms of the language of the pattern -/
+def reAccepts (items : List ReItem) (f : ReFunc) (s : List Char) : Prop :=
+  match f with
+  | .fullmatch => ReLang items s
+  | .match_ => ∃ pre suf, ReLang items pre ∧ s = pre ++ suf
+  | .search => ∃ a pre suf, ReLang items pre ∧ s = a ++ (pre ++ suf)
+
 /-! ### "returns them unchanged": patterns that cannot change the value, targets Python can hold -/
 
 /- a pattern with no `default=`, no `Val`, no T expression, no Switch, no Check: every rule
@@ -215,6 +234,81 @@ def wfL : List V → Bool
 def wfD : List (V × V) → Bool
   | [] => true
   | (k, v) :: r => wfV k && wfV v && wfD r
+end
+
+/-! ### calm evaluations: nothing can fault
+
+  Soundness and completeness are "up to faults": a comparison that raises (`M > 'a'` on an int)
+  or a set member that became unhashable ends the match in that TypeError, which is neither
+  acceptance nor a MatchError.  `calm p t` is a sufficient condition, stated on the pattern and
+  the target alone, under which no fault is possible: every M comparison the pattern could make
+  on the part of the target it is applied to is between comparable values (over-approximated:
+  *all* children / alternatives / spec keys are asked, not only those short-circuiting reaches),
+  set / frozenset patterns have value-preserving alternatives (so the rebuilt set has the
+  target's hashable members), and a Check could be constructed. -/
+
+def isPass : Verdict → Bool
+  | .pass _ => true
+  | _ => false
+
+def isFault : Verdict → Bool
+  | .fault _ => true
+  | _ => false
+
+/-- Python's `lv <op> rv` does not raise (an operand whose T access fails is never compared) -/
+def cmpCalm (op : CmpOp) (lv rv : Option V) : Bool :=
+  match lv, rv with
+  | some a, some b => (pyCmp op a b).isSome
+  | _, _ => true
+
+mutual
+def calm (ct : ClassTable) : Spec → V → Bool
+  | .mexpr l op r, t => cmpCalm op (msideVal? l t) (sideVal? r t)
+  | .and cs _, t => calmL ct cs t
+  | .or cs _, t => calmL ct cs t
+  | .not c, t => calm ct c t
+  | .matchS c _, t => calm ct c t
+  | .switch cases _, t => calmC ct cases t
+  | .check a, _ => (match checkInit a with | .ok _ => true | .error _ => false)
+  | .list alts, t =>
+    (match t with
+     | .list items => items.all (calmL ct alts)
+     | _ => true)
+  | .set alts, t =>
+    (match t with
+     | .set items => items.all (calmL ct alts) && pureL alts && wfL items && items.all V.hashable
+     | _ => true)
+  | .fset alts, t =>
+    (match t with
+     | .fset items => items.all (calmL ct alts) && pureL alts && wfL items && items.all V.hashable
+     | _ => true)
+  | .tuple ps, t =>
+    (match t with
+     | .tuple items => calmZ ct ps items
+     | _ => true)
+  | .dict es, t =>
+    (match t with
+     | .dict items => items.all (fun kv => calmD ct es kv.1 kv.2)
+     | _ => true)
+  | _, _ => true
+def calmL (ct : ClassTable) : List Spec → V → Bool
+  | [], _ => true
+  | c :: cs, t => calm ct c t && calmL ct cs t
+def calmC (ct : ClassTable) : List (Spec × Spec) → V → Bool
+  | [], _ => true
+  | (k, v) :: r, t => calm ct k t && calm ct v t && calmC ct r t
+def calmZ (ct : ClassTable) : List Spec → List V → Bool
+  | [], _ => true
+  | _ :: _, [] => true
+  | p :: ps, x :: xs => calm ct p x && calmZ ct ps xs
+/-- every spec key on the target key; the value pattern of every spec key the target key passes
+    on the target value -/
+def calmD (ct : ClassTable) : List (KeyKind × Spec × Spec) → V → V → Bool
+  | [], _, _ => true
+  | (kind, ks, vs) :: r, key, val =>
+    (match optKey kind ks with
+     | some k => !pyEq key k || calm ct vs val
+     | none => calm ct ks key && (!isPass (denote ct ks key).1 || calm ct vs val)) && calmD ct r key val
 end
 
 /-- the value a passing match returns -/
@@ -312,11 +406,6 @@ def checkHist (p : Spec) (d : Option Arg) : List HStep → ClassTable → List (
   | .register a k :: rest, ct, none :: os => checkHist p d rest (registerCls ct a k) os
   | _, _, _ => false
 
-/-- class rows of the user classes a case declares (`class K1(K0)`), prepended to the table -/
-def worldRows (ct : ClassTable) : List (String × String) → ClassTable
-  | [] => ct
-  | (k, base) :: r => worldRows ((k, k :: ct.mro base) :: ct) r
-
 /-! ### facts -/
 
 structure Facts9 where
@@ -328,17 +417,7 @@ structure Facts9 where
   mutations : List (String × String × String)
   fresh : List (String × String)
   identity : List (String × String × Bool)
-
-/-- Markers compared by identity whose copies are *other* objects in the pinned glom:
-    * `T`: `Check.glomit` tests `self.spec is not T` only to skip a `glom(target, T)` that would
-      return the target anyway — a copy of `T` takes the other branch with the same result;
-    * `M`: `_MExpr.glomit` resolves its operands with `lhs is M` / `rhs is M`, and `_MType` defines
-      no `__copy__` / `__deepcopy__` / `__reduce__`: in a deep copy of `M > 3` the operand is a
-      second `_MType` instance, `<_MType> > 3` builds a (truthy) `_MExpr`, and every target
-      passes.  A defect of the pinned glom (reported; the harness keeps deep copies of M
-      operands out of the correspondence behind `GATE_DEEPCOPY_M`); the model has no term for
-      "an `_MType` that is not `M`", so `copySpec` leaves comparison operands as they are. -/
-def identityExempt : List String := ["M", "T"]
+  moduleWrites : List (String × String × String)
 
 def expectedPrecedence : List (String × String) :=
   [("type(match) in (Required, Optional)", "match = match.key"),
@@ -346,6 +425,80 @@ def expectedPrecedence : List (String × String) :=
     "if not match:     return 0; return max([_precedence(item) for item in match])"),
    ("isinstance(match, type)", "return 2"), ("hasattr(match, 'glomit') or callable(match)", "return 1"),
    ("else", "return 0")]
+
+/-! ### `_precedence`, read off the extracted if-chain
+
+  The extractor delivers the if-chain of `_precedence` as (test, statements) source texts.
+  `precStep` gives each text its meaning on a key object — `kind` says whether it (still) is an
+  `Optional(...)` / `Required(...)` wrapper, `s` is the key inside — and runs the chain once, asking
+  `recur` for the items of a tuple / frozenset.  A text it does not know yields `none`. -/
+
+inductive PrecAct where
+  | unwrap                 -- `match = match.key`
+  | ret (n : Nat)          -- `return n`
+  | maxItems               -- `if not match: return 0` / `return max([_precedence(item) for item in match])`
+
+/-- has a `glomit` method or is callable (`_precedence` asks this after `isinstance(match, type)`) -/
+def glomitOrCallable : Spec → Bool
+  | .lit _ | .list _ | .set _ | .dict _ | .tuple _ | .fset _ => false
+  | _ => true
+
+def kindIsPlain : KeyKind → Bool
+  | .plain => true
+  | _ => false
+
+def isTupleOrFset : Spec → Bool
+  | .tuple _ | .fset _ => true
+  | _ => false
+
+def isTypeObj : Spec → Bool
+  | .ty _ => true
+  | _ => false
+
+/-- `hasattr(match, 'glomit') or callable(match)` on the object itself: `Optional` has a
+    `glomit`, `Required` has neither -/
+def objGlomitOrCallable : KeyKind → Spec → Bool
+  | .plain, s => glomitOrCallable s
+  | .opt _, _ => true
+  | .req, _ => false
+
+def precTest (test : String) (kind : KeyKind) (s : Spec) : Option Bool :=
+  if test == "type(match) in (Required, Optional)" then some (!kindIsPlain kind)
+  else if test == "type(match) in (tuple, frozenset)" then some (kindIsPlain kind && isTupleOrFset s)
+  else if test == "isinstance(match, type)" then some (kindIsPlain kind && isTypeObj s)
+  else if test == "hasattr(match, 'glomit') or callable(match)" then some (objGlomitOrCallable kind s)
+  else if test == "else" then some true
+  else none
+
+def precAct (act : String) : Option PrecAct :=
+  if act == "match = match.key" then some .unwrap
+  else if act == "if not match:     return 0; return max([_precedence(item) for item in match])" then some .maxItems
+  else if act == "return 0" then some (.ret 0)
+  else if act == "return 1" then some (.ret 1)
+  else if act == "return 2" then some (.ret 2)
+  else none
+
+def itemsOf : Spec → List Spec
+  | .tuple ps | .fset ps => ps
+  | _ => []
+
+/-- `max([recur(item) for item in items])`, 0 for no items -/
+def maxOver (recur : Spec → Nat) : List Spec → Nat
+  | [] => 0
+  | s :: ss => max (recur s) (maxOver recur ss)
+
+def precStep (recur : Spec → Nat) : List (String × String) → KeyKind → Spec → Option Nat
+  | [], _, _ => none
+  | (test, act) :: rest, kind, s =>
+    match precTest test kind s with
+    | none => none
+    | some false => precStep recur rest kind s
+    | some true =>
+      match precAct act with
+      | some .unwrap => precStep recur rest .plain s
+      | some (.ret n) => some n
+      | some .maxItems => some (maxOver recur (itemsOf s))
+      | none => none
 
 /-- * `_glom_match` tests type → dict → list/set/frozenset → tuple → callable → `!=`, so a
       type (which is also callable) is matched by isinstance, never called;
@@ -356,14 +509,16 @@ def expectedPrecedence : List (String × String) :=
       `Optional.glomit` store into or call a mutating method on is the scope or a local bound
       to a fresh display / comprehension in the same function — never the target or the spec;
     * TypeMatchError is a MatchError and a TypeError; `Match.matches` catches GlomError;
+    * **no state between calls**: no function or method of matching.py stores into, deletes from
+      or calls a mutating method on an object bound at module level, or rebinds a global — the
+      matcher remembers nothing from one call to the next (what lets a history be judged call by call);
     * **copies**: the markers the matching code recognises by identity survive `copy.copy`,
       `copy.deepcopy` and a pickle round trip as the very same object — `_MISSING` ("no
       default given" in Match / And / Or / Switch / Optional) and `RAISE` (Check) in particular;
       `identityExempt` lists the two that do not (see there). -/
 def WF9 (env : Env) (f : Facts9) : Bool :=
-  ["copy", "deepcopy", "pickle"].all (fun how =>
-    markerKept f.identity "_MISSING" how && markerKept f.identity "RAISE" how) &&
-  f.identity.all (fun r => r.2.2 || identityExempt.contains r.1) &&
+  f.moduleWrites.isEmpty &&
+  markersOK f.identity &&
   f.matchOrder == ["type", "dict", "listlike", "tuple", "callable", "ne"] &&
   f.dispatchOrder == ["TType", "glomit", "mode"] &&
   f.precedenceRules == expectedPrecedence &&
